@@ -190,6 +190,17 @@ class C15(common.Spec):
                     circuit.finalize()
                 except Exception as err:
                     obs['err'] = common.exc_enum(err)
+                    if case.get('retry'):
+                        # a second attempt on the same circuit must not succeed either: the
+                        # references are as unknown / as wrong as before
+                        try:
+                            edzed.get_circuit().finalize()
+                        except Exception:      # noqa
+                            pass
+                        else:
+                            obs['err'] = None
+                            obs['retry_succeeded'] = True
+                            observe(edzed.get_circuit())
                 else:
                     observe(circuit)
             else:
@@ -323,6 +334,8 @@ def gen_case(rng, bad=False):
             tgt = rng.choice(names + ['_not_' + rng.choice(names)])
         named.append([tgt, how])
     case = dict(blocks=blocks, named=named, mode=rng.choice(['finalize', 'start']), foreign=False)
+    if case['mode'] == 'finalize' and rng.random() < 0.5:
+        case['retry'] = True
     if bad:
         kind = rng.choice(['unknown', 'foreign', 'wrongkind', 'not_unknown', 'dunder'])
         cbs = [b for b in blocks[:-1] if b['kind'] != 'S']
